@@ -155,8 +155,20 @@ func (d *differ) walk(a, b reflect.Value, path string) {
 			d.walk(a.Index(i), b.Index(i), fmt.Sprintf("%s[%d]", path, i))
 		}
 	case reflect.String:
-		if a.String() != b.String() {
-			d.add(path, "%q vs %q", clipS(a.String()), clipS(b.String()))
+		if as, bs := a.String(), b.String(); as != bs {
+			if len(as) <= 80 && len(bs) <= 80 {
+				d.add(path, "%q vs %q", as, bs)
+			} else {
+				k := 0 // long strings: lengths and the surroundings of the first differing byte
+				for k < len(as) && k < len(bs) && as[k] == bs[k] {
+					k++
+				}
+				from := k - 20
+				if from < 0 {
+					from = 0
+				}
+				d.add(path, "strings of %d vs %d bytes differ at byte %d: …%q vs …%q", len(as), len(bs), k, clipS(as[from:]), clipS(bs[from:]))
+			}
 		}
 	case reflect.Bool:
 		if a.Bool() != b.Bool() {
